@@ -9,7 +9,7 @@ use crate::util::tree::{self, kind_of, TreeIndex};
 use serde_json::json;
 use std::collections::BTreeSet;
 use std::sync::Arc;
-use sv_parser::{unwrap_locate, unwrap_node, NodeEvent, RefNode, SyntaxTree};
+use sv_parser::{unwrap_locate, unwrap_node, EventIter, Iter, NodeEvent, RefNode, RefNodes, SyntaxTree};
 
 /// names of all `struct`s deriving Node, read from the syntax-tree crate of the working tree
 fn struct_kinds() -> BTreeSet<String> {
@@ -236,6 +236,70 @@ pub fn check_tree(tree: &SyntaxTree, structs: &BTreeSet<String>, deep: bool) -> 
             let emu = b.map(|b| &whole[b..e]);
             let tag = if got == emu { "[sig:get_str_trim-bool-skip-reset-by-nested-whitespace] " } else { "" };
             return Err(format!("{}get_str_trim(node #{} {}) = {:?}, first..last non-whitespace token is {:?}", tag, i, n.kind, got, want_s));
+        }
+        subchecks += 1;
+    }
+    // (6) the views taken from an iterator in ANY state: after k steps, the rest of the plain
+    // iteration, its event view (Iter::event and EventIter::from) all continue the same pre-order
+    let n_all = ix.nodes.len();
+    let mut ks: Vec<usize> = (0..n_all.min(if deep { 64 } else { 24 })).collect();
+    let step = (n_all / 16).max(1);
+    ks.extend((0..n_all).step_by(step));
+    ks.push(n_all - 1);
+    ks.sort();
+    ks.dedup();
+    for &k in &ks {
+        let advance = || {
+            let mut it = tree.into_iter();
+            for _ in 0..k {
+                it.next();
+            }
+            it
+        };
+        let rest: Vec<_> = advance().map(|m| proj(&m)).collect();
+        if rest[..] != projs[k..] {
+            return Err(format!("an iterator advanced by {} steps continues with {} nodes that are not the rest of the pre-order ({} nodes)", k, rest.len(), n_all - k));
+        }
+        for (what, ev) in [("Iter::event()", advance().event()), ("EventIter::from(iter)", EventIter::from(advance()))] {
+            let sub = tree::index_events(ev).map_err(|e| format!("{} of an iterator advanced by {} steps: {}", what, k, e))?;
+            let got: Vec<_> = sub.nodes.iter().map(|m| proj(&m.node)).collect();
+            if got[..] != projs[k..] {
+                let d = got.iter().zip(projs[k..].iter()).position(|(a, b)| a != b).unwrap_or(got.len().min(n_all - k));
+                return Err(format!("{} of an iterator advanced by {} steps: Enter #{} is {:?}, plain iteration continues with {:?}", what, k, d, got.get(d), projs.get(k + d)));
+            }
+        }
+        subchecks += 1;
+    }
+    // (7) several roots at once (RefNodes built from a node list, as the From impls for tuples,
+    // Vec, List, Paren do): the children of a node, given as roots, enumerate its subtree
+    for i in (0..ix.nodes.len()).step_by(stride) {
+        let n = &ix.nodes[i];
+        let kids: Vec<usize> = (n.pre + 1..n.end).filter(|j| ix.nodes[*j].parent == Some(i)).collect();
+        if kids.len() < 2 {
+            continue;
+        }
+        let roots = || RefNodes(kids.iter().map(|j| ix.nodes[*j].node.clone()).collect());
+        let plain2: Vec<_> = Iter::new(roots()).map(|m| proj(&m)).collect();
+        if plain2[..] != projs[n.pre + 1..n.end] {
+            return Err(format!("Iter::new over the {} children of node #{} ({}) does not enumerate its subtree in pre-order", kids.len(), i, n.kind));
+        }
+        let sub = tree::index_events(Iter::new(roots()).event()).map_err(|e| format!("event view over the children of node #{} ({}): {}", i, n.kind, e))?;
+        let got: Vec<_> = sub.nodes.iter().map(|m| proj(&m.node)).collect();
+        if got[..] != projs[n.pre + 1..n.end] {
+            let d = got.iter().zip(projs[n.pre + 1..n.end].iter()).position(|(a, b)| a != b).unwrap_or(0);
+            return Err(format!("event view over the {} children of node #{} ({}): Enter #{} is {:?}, plain iteration has {:?}", kids.len(), i, n.kind, d, got.get(d), projs.get(n.pre + 1 + d)));
+        }
+        let whole = tree.get_str(vec![ix.nodes[0].node.clone()]).unwrap_or("");
+        let want_full = if n.first_leaf < n.leaf_end { Some(&whole[ix.leaves[n.first_leaf].0.offset..ix.leaves[n.leaf_end - 1].0.offset + ix.leaves[n.leaf_end - 1].0.len]) } else { None };
+        let got_full = tree.get_str(roots());
+        if got_full != want_full {
+            return Err(format!("get_str(children of node #{} {}) = {:?}, their leaves span {:?}", i, n.kind, got_full, want_full));
+        }
+        let spans: Vec<(usize, usize)> = kids.iter().filter_map(|j| tree::trim_span(&ix, *j)).collect();
+        let want_trim = if spans.is_empty() { None } else { Some(&whole[spans[0].0..spans[spans.len() - 1].1]) };
+        let got_trim = api::guarded(|| tree.get_str_trim(roots()).map(|s| s.to_string())).map_err(|p| format!("get_str_trim(children of node #{} {}) panicked: {}", i, n.kind, p))?;
+        if got_trim.as_deref() != want_trim {
+            return Err(format!("get_str_trim(children of node #{} {}) = {:?}, first..last non-whitespace token is {:?}", i, n.kind, got_trim, want_trim));
         }
         subchecks += 1;
     }
